@@ -8,24 +8,69 @@ CLI = "src/core/client.rs"
 items = []
 A = items.append
 # ---------------- capability.rs
-A(Item(CAP, "enum", "CapabilitySetType", mod="capability", strip_derive=["TryFromPrimitive", "Debug", "Hash"], try_from="u16"))
+# derive(Copy, Clone) is added so that contracts can write `cap.cap_type as u16` on this field-less enum (no executable effect)
+A(Item(CAP, "enum", "CapabilitySetType", mod="capability", strip_derive=["TryFromPrimitive", "Debug", "Hash"], try_from="u16", add_derive="Copy, Clone"))
 A(Item(CAP, "struct", "Capability", mod="capability"))
 for e in ("MajorType", "MinorType", "GeneralExtraFlag", "OrderFlag", "InputFlags"):
     A(Item(CAP, "enum", e, mod="capability"))
+
+A(Raw(r"""
+// ---------------- TS_CAPS_SET (MS-RDPBCGR 2.2.1.13.1.1.1): capabilitySetType, lengthCapability (counts its own 4 header bytes), capabilityData
+pub open spec fn cap_body(capability: Option<Capability>) -> Seq<u8> { if capability is Some { ser(capability->Some_0.message.mv()) } else { Seq::<u8>::empty() } }
+pub open spec fn cap_type_of(capability: Option<Capability>) -> u16 { if capability is Some { capability->Some_0.cap_type as u16 } else { 1u16 } }
+pub open spec fn caps_set_bytes(cap_type: u16, body: Seq<u8>) -> Seq<u8> { le16(cap_type) + le16((body.len() + 4) as u16) + body }
+/// the message tree `capability_set` builds (deterministic: Array::new(|| capability_set(None)) needs it)
+pub open spec fn capability_set_view(cap_type: u16, body: Seq<u8>) -> MV {
+    MV::Comp(seq![("capabilitySetType"@, MV::U16(cap_type, true)),
+                  ("lengthCapability"@, MV::Dyn(Box::new(MV::U16((body.len() + 4) as u16, true)), OV::Size("capabilitySet"@, body.len() as usize))),
+                  ("capabilitySet"@, MV::Bytes(body))])
+}
+pub open spec fn cache_entry_view() -> MV { MV::Comp(seq![("cacheEntries"@, MV::U16(0, true)), ("cacheMaximumCellSize"@, MV::U16(0, true))]) }
+""", mod="capability", name="capability_specs"))
+
 CAP_BUILDERS = ["ts_general_capability_set", "ts_bitmap_capability_set", "ts_order_capability_set", "ts_bitmap_cache_capability_set", "ts_pointer_capability_set",
                 "ts_sound_capability_set", "ts_input_capability_set", "ts_brush_capability_set", "ts_glyph_capability_set", "ts_offscreen_capability_set",
                 "ts_virtualchannel_capability_set", "ts_multifragment_update_capability_ts"]
+# fuel = number of fields + 2 (ser -> ser_fields_from x (n + 1)); glyph: 10 trame elements
+CAP_FUEL = {"ts_general_capability_set": 13, "ts_bitmap_capability_set": 15, "ts_order_capability_set": 19, "ts_bitmap_cache_capability_set": 14, "ts_pointer_capability_set": 4,
+            "ts_sound_capability_set": 4, "ts_input_capability_set": 9, "ts_brush_capability_set": 3, "ts_glyph_capability_set": 13, "ts_offscreen_capability_set": 5,
+            "ts_virtualchannel_capability_set": 4, "ts_multifragment_update_capability_ts": 3}
+CAP_TYPE = {"ts_general_capability_set": "CapstypeGeneral", "ts_bitmap_capability_set": "CapstypeBitmap", "ts_order_capability_set": "CapstypeOrder",
+            "ts_bitmap_cache_capability_set": "CapstypeBitmapcache", "ts_pointer_capability_set": "CapstypePointer", "ts_sound_capability_set": "CapstypeSound",
+            "ts_input_capability_set": "CapstypeInput", "ts_brush_capability_set": "CapstypeBrush", "ts_glyph_capability_set": "CapstypeGlyphcache",
+            "ts_offscreen_capability_set": "CapstypeOffscreencache", "ts_virtualchannel_capability_set": "CapstypeVirtualchannel",
+            "ts_multifragment_update_capability_ts": "CapsettypeMultifragmentupdate"}
+CAP_POST = {"ts_glyph_capability_set": """proof { let s = r.message.fields()[0].1->Trame_0; assert(s.len() == 10);
+    assert forall|i: int| 0 <= i < 10 implies #[trigger] s[i] == cache_entry_view() by {}
+    assert(ser_seq_from(s, 0).len() == 40); }"""}
 for b in CAP_BUILDERS:
-    A(Fn(CAP, b, mod="capability", props=["C04", "C06"], ensures=shape_clauses(CAP, b, res="r.message")))
-A(Fn(CAP, "cache_entry", mod="capability", ret="c", props=["C04"], ensures=shape_clauses(CAP, "cache_entry", res="c")))
-A(Fn(CAP, "capability_set", mod="capability", props=["C04", "C06"], ret="c", ensures=shape_clauses(CAP, "capability_set", res="c", nth=2)))
-A(Fn(CAP, "from_capability_set", impl=r"impl Capability", mod="capability", props=["C06"], keys=True))
+    A(Fn(CAP, b, mod="capability", props=["C04", "C06"], fuel=CAP_FUEL[b], post=CAP_POST.get(b),
+         ensures=shape_clauses(CAP, b, res="r.message") + [("C04", "type", "r.cap_type is %s" % CAP_TYPE[b])]))
+A(Fn(CAP, "cache_entry", mod="capability", ret="c", props=["C04"], fuel=4, keys=True,
+     ensures=shape_clauses(CAP, "cache_entry", res="c") + [("C04", "view", "c.mv() == cache_entry_view()"), ("C04", "size", "ser(c.mv()).len() == 4")],
+     post="proof { assert(c.fields() =~= cache_entry_view()->Comp_0); }"))
+CAPSET_SIZE_CLOSURE = dict(params="length: &U16", ret="-> (r: MessageOption)",
+                           spec='ensures r.ov() == OV::Size("capabilitySet"@, (if length.val() >= 4 { length.val() - 4 } else { 0 }) as usize)')
+A(Fn(CAP, "capability_set", mod="capability", props=["C04", "C06"], ret="c", fuel=5, keys=True,
+     requires=["capability is Some ==> ser(capability->Some_0.message.mv()).len() <= 0xfff0"],
+     closures={1: CAPSET_SIZE_CLOSURE},
+     ensures=shape_clauses(CAP, "capability_set", res="c", nth=2) + [
+         ("C04", "type-field", "c.fields()[0].1 == MV::U16(cap_type_of(capability), true)"),
+         ("C04", "length-field", "c.fields()[1].1 matches MV::Dyn(b, o) && *b == MV::U16((cap_body(capability).len() + 4) as u16, true) && o == OV::Size(\"capabilitySet\"@, cap_body(capability).len() as usize)"),
+         ("C04", "body-field", "c.fields()[2].1 == MV::Bytes(cap_body(capability))"),
+         ("C04", "view", "c.mv() == capability_set_view(cap_type_of(capability), cap_body(capability))"),
+         ("C04", "bytes", "ser(c.mv()) =~= caps_set_bytes(cap_type_of(capability), cap_body(capability))"),
+         ("C04", "size", "ser(c.mv()).len() == cap_body(capability).len() + 4")],
+     post="proof { assert(c.fields() =~= capability_set_view(cap_type_of(capability), cap_body(capability))->Comp_0); }"))
+A(Fn(CAP, "from_capability_set", impl=r"impl Capability", mod="capability", props=["C06"], keys=True,
+     requires=['has_key(capability_set.fields(), "capabilitySetType"@)', 'has_key(capability_set.fields(), "capabilitySet"@)']))
 
 
 # capability-set sizes documented in MS-RDPBCGR 2.2.7.1.x / 2.2.7.2.x (lengthCapability minus the 4 byte header)
+# ts_virtualchannel_capability_set: 2.2.7.1.10 allows 8 (flags only) or 12 (flags + VCChunkSize); the code always sends VCChunkSize -> 12 - 4 = 8
 CAP_SIZES = {"ts_general_capability_set": 20, "ts_bitmap_capability_set": 24, "ts_order_capability_set": 84, "ts_bitmap_cache_capability_set": 36,
              "ts_pointer_capability_set": 4, "ts_sound_capability_set": 4, "ts_input_capability_set": 84, "ts_brush_capability_set": 4,
-             "ts_glyph_capability_set": 48, "ts_offscreen_capability_set": 8, "ts_virtualchannel_capability_set": 4, "ts_multifragment_update_capability_ts": 4}
+             "ts_glyph_capability_set": 48, "ts_offscreen_capability_set": 8, "ts_virtualchannel_capability_set": 8, "ts_multifragment_update_capability_ts": 4}
 for x in items:
     if x.kind == "fn" and x.name in CAP_SIZES:
         x.ensures.append(Clause("ser(r.message.mv()).len() == %d" % CAP_SIZES[x.name], props=["C04"], cid="documented-size"))
